@@ -34,8 +34,8 @@ const (
 
 type uiCfg struct {
 	disp int // 0 absent, 1 ok, 2 returns error
-	req  int // 0 absent, 1 ok, 2 returns error
-	conf int // 0 absent, 1 yes, 2 no, 3 returns error
+	req  int // 0 absent, 1 ok, 2 returns error, 3 returns an error TOGETHER WITH a value (what was typed before the terminal hung up)
+	conf int // 0 absent, 1 yes, 2 no, 3 returns error, 4 returns an error together with "yes"
 	ans  int // which of the answers RequestValue returns
 }
 
@@ -99,6 +99,10 @@ func buildUIDyn(shape uiCfg, cur func(name string) uiCfg, add func(name string, 
 			if u.req == 2 {
 				return "", errors.New("request failed")
 			}
+			if u.req == 3 {
+				// a failed prompt is answered by a bare fail, whatever came with the error
+				return answers[u.ans], errors.New("request failed after part of the answer was typed")
+			}
 			return answers[u.ans], nil
 		}
 	}
@@ -110,6 +114,8 @@ func buildUIDyn(shape uiCfg, cur func(name string) uiCfg, add func(name string, 
 				return true, nil
 			case 2:
 				return false, nil
+			case 4:
+				return true, errors.New("confirm failed after the choice was made")
 			}
 			return false, errors.New("confirm failed")
 		}
@@ -320,7 +326,7 @@ func step(machine int, u uiCfg, s *mstate, m msg) (rep expectReply, call *uiCall
 			return fail, nil, nil
 		}
 		c := &uiCall{Kind: "request", Text: string(m.body), Secret: m.typ == "request-secret"}
-		if u.req == 2 {
+		if u.req >= 2 {
 			return fail, c, nil
 		}
 		return expectReply{constrained: true, typ: "ok", body: []byte(answers[u.ans])}, c, nil
@@ -404,8 +410,8 @@ func (c *conv) describe() string {
 var allUI = func() []uiCfg {
 	var out []uiCfg
 	for d := 0; d < 3; d++ {
-		for q := 0; q < 3; q++ {
-			for c := 0; c < 4; c++ {
+		for q := 0; q < 4; q++ {
+			for c := 0; c < 5; c++ {
 				out = append(out, uiCfg{d, q, c, 0})
 			}
 		}
